@@ -42,6 +42,9 @@ def _cls(pm):
         if helpers and n not in helpers:
             g = inline_helpers(f, lambda name: helpers.get(name), max_body=30)
             g = inline_helpers(g, lambda name: helpers.get(name), max_body=30)
+            # value-returning steps used inside a larger statement: super().append(self.link(value))
+            from ..astutil import hoist_value_helpers
+            g = hoist_value_helpers(g, lambda name: helpers.get(name))
             ms[n] = g
         else:
             ms[n] = f
@@ -125,18 +128,30 @@ def r_listpair(E):
             ok = False
             if wrap and sup:
                 wname = wrap[0].targets[0].id if isinstance(wrap[0].targets[0], ast.Name) else None
-                handed = norm(sup[0].args[-1]) if sup[0].args else None
+                from ..astutil import expanded as _exp_l
+                handed = norm(_exp_l(sup[0].args[-1], fn)) if sup[0].args else None
                 att = [cl for cl in _calls(fn) if isinstance(cl.func, ast.Attribute) and cl.func.attr ==
                        "set_modeling_obj_container" and norm(cl.func.value) == wname]
                 from ..astutil import source_order
                 rank = source_order(fn)
-                ok = handed == wname and att and [norm(a) for a in att[-1].args] == ATTACH_ARGS \
-                    and rank[id(att[-1])] > rank[id(sup[0])]
+                # (attached before or after it is stored: nothing observes the difference)
+                ok = handed == wname and att and [norm(a) for a in att[-1].args] == ATTACH_ARGS
+            if ok:
+                # … and it is attached once the list has gone through its update: the wrapper reads the list's container
+                # when it is attached, and a list that triggers an update is detached by it — a wrapper attached before that
+                # keeps pointing to the container the list has just left (a holder that nothing ever detaches)
+                upd = [cl for cl in _calls(fn) if isinstance(cl.func, ast.Name) and cl.func.id == "ModelingUpdate"]
+                if upd and rank[id(att[-1])] < min(rank[id(u_)] for u_ in upd):
+                    res.findings.append(Finding(
+                        "R-LISTPAIR", f"{where} attach before update",
+                        f"{where} attaches the new element's wrapper (with the list's current container) before the "
+                        f"ModelingUpdate that replaces and detaches this list: the wrapper stays registered on the object as a "
+                        f"holder of the old list — a reverse link that no later edit removes", rel, att[-1].lineno, where))
             if not ok:
                 res.findings.append(Finding(
                     "R-LISTPAIR", f"{where} attach",
                     f"{where}: the element handed to the underlying list is not a fresh ContextualModelingObjectAttribute "
-                    f"attached afterwards with (self.modeling_obj_container, self.attr_name_in_mod_obj_container): the "
+                    f"attached with (self.modeling_obj_container, self.attr_name_in_mod_obj_container): the "
                     f"object's reverse look-ups will not report this list's holder", rel, fn.lineno, where))
             if m == "__setitem__":
                 # slices are rejected or handled before anything happens
